@@ -1,7 +1,7 @@
 (* C13: the boolean form C13_check accepts the model's own output on well-formed cases inside the
    state-free domains. *)
 From Coq Require Import List Permutation Sorted Bool NArith ZArith Lia Arith String.
-From RareV Require Import Base.Hex Model.Sort Proofs.SortGeneric Proofs.SortOrders Proofs.SortCtx.
+From RareV Require Import Base.Hex Model.Sort Proofs.SortGeneric Proofs.SortOrders Proofs.SortCtx Proofs.SortMerge.
 Import ListNotations.
 
 (* ---------------------------------------------------------------- boolean helpers *)
@@ -37,6 +37,57 @@ Proof. intros H. unfold it_at. now apply nth_In. Qed.
 Lemma it_at_inj its i j : NoDup its -> (i < List.length its)%nat -> (j < List.length its)%nat ->
   it_at its i = it_at its j -> i = j.
 Proof. intros Hnd Hi Hj E. unfold it_at in E. exact (proj1 (NoDup_nth its dummy_item) Hnd i j Hi Hj E). Qed.
+
+(* ---------------------------------------------------------------- helpers for the top-N check *)
+Lemma SS_app_inv {B} (R : B -> B -> Prop) : forall X Y, StronglySorted R (X ++ Y) ->
+  StronglySorted R X /\ StronglySorted R Y /\ (forall x y, In x X -> In y Y -> R x y).
+Proof.
+  induction X as [|a X IH]; intros Y H; cbn in *.
+  - split; [constructor|]. split; [exact H|]. intros x y [].
+  - inversion H as [|? ? Hs Hf]; subst. destruct (IH Y Hs) as (HX & HY & Hc).
+    rewrite Forall_forall in Hf. split; [|split; [exact HY|]].
+    + constructor; [exact HX|]. rewrite Forall_forall. intros y Hy. apply Hf, in_or_app. now left.
+    + intros x y [<-|Hx] Hy; [apply Hf, in_or_app; now right|now apply Hc].
+Qed.
+
+Lemma adjacent_of_SS (g : item -> item -> bool) (X : list (nat * item)) :
+  StronglySorted (fun a b => g (snd a) (snd b) = true) X -> adjacent_ok g (map snd X) = true.
+Proof.
+  induction 1 as [|a X HX IH Ha]; [reflexivity|]. destruct X as [|b X]; [reflexivity|].
+  cbn [map adjacent_ok]. apply andb_true_iff. split; [|exact IH].
+  rewrite Forall_forall in Ha. apply Ha. now left.
+Qed.
+
+Lemma filter_length_perm {B} (p : B -> bool) l l' : Permutation l l' ->
+  List.length (filter p l) = List.length (filter p l').
+Proof.
+  induction 1 as [|x l l' _ IH|x y l|l l' l'' _ IH1 _ IH2]; cbn; auto.
+  - destruct (p x); cbn; auto.
+  - destruct (p x), (p y); reflexivity.
+  - congruence.
+Qed.
+Lemma filter_all {B} (p : B -> bool) l : (forall x, In x l -> p x = true) -> filter p l = l.
+Proof.
+  induction l as [|a l IH]; intros H; cbn; [reflexivity|].
+  rewrite (H a) by now left. f_equal. apply IH. intros x Hx. apply H. now right.
+Qed.
+Lemma filter_none {B} (p : B -> bool) l : (forall x, In x l -> p x = false) -> filter p l = [].
+Proof.
+  induction l as [|a l IH]; intros H; cbn; [reflexivity|].
+  rewrite (H a) by now left. apply IH. intros x Hx. apply H. now right.
+Qed.
+
+Lemma combine_seq_pairs (its : list item) :
+  combine (seq 0 (List.length its)) its = map (fun i => (i, it_at its i)) (seq 0 (List.length its)).
+Proof.
+  apply (nth_ext _ _ (0%nat, dummy_item) (0%nat, dummy_item)).
+  - rewrite combine_length, map_length, seq_length. lia.
+  - intros i Hi. rewrite combine_length, seq_length, Nat.min_id in Hi.
+    rewrite combine_nth by (rewrite seq_length; reflexivity).
+    rewrite (nth_indep _ (0%nat, dummy_item) ((fun i => (i, it_at its i)) 0%nat))
+      by (rewrite map_length, seq_length; exact Hi).
+    rewrite (map_nth (fun i => (i, it_at its i))). rewrite !seq_nth by exact Hi. reflexivity.
+Qed.
 
 (* ---------------------------------------------------------------- the pure comparator of a case *)
 Section Case.
@@ -266,12 +317,78 @@ Proof.
   intros a b. apply (cal_ok_sound m rv its f a b Hpure).
 Qed.
 
+(* ---- top: the first rows of the (merge-)sorted arrangement pass the linear check ---- *)
+Definition Tx : list (nat * item) := msort g' L.
+Lemma Tx_sorted : StronglySorted (lt g') Tx /\ Permutation L Tx.
+Proof. apply msort_sorted; [apply g'_order|apply L_NoDup]. Qed.
+Lemma Tx_In a : In a Tx -> In a L.
+Proof. intros H. eapply Permutation_in; [apply Permutation_sym, (proj2 Tx_sorted)|exact H]. Qed.
+Lemma Tx_NoDup : NoDup Tx.
+Proof. eapply Permutation_NoDup; [apply (proj2 Tx_sorted)|apply L_NoDup]. Qed.
+
+Lemma map_it_at_fst X : (forall a, In a X -> In a L) ->
+  map (it_at its) (map fst X) = map snd X.
+Proof.
+  intros H. rewrite map_map. apply map_ext_in. intros a Ha.
+  destruct (L_spec a (H a Ha)) as [_ ->]. reflexivity.
+Qed.
+
+Lemma top_ok_model limit : top_ok g its limit (map fst (firstn limit Tx)) = true.
+Proof.
+  destruct Tx_sorted as [HS HP].
+  assert (Hlen : List.length Tx = n).
+  { rewrite <- (Permutation_length HP). unfold L. now rewrite map_length, seq_length. }
+  assert (HlenF : List.length (firstn limit Tx) = Nat.min limit n) by (now rewrite firstn_length, Hlen).
+  remember (firstn limit Tx) as F eqn:EF. remember (skipn limit Tx) as R eqn:ER.
+  assert (Hsplit : Tx = F ++ R) by (subst F R; symmetry; apply firstn_skipn).
+  clear EF ER.
+  assert (HinF : forall a, In a F -> In a Tx).
+  { intros a Ha. rewrite Hsplit. apply in_or_app. now left. }
+  unfold top_ok. repeat (apply andb_true_iff; split).
+  - apply Nat.eqb_eq. now rewrite map_length.
+  - apply forallb_forall. intros i Hi. apply in_map_iff in Hi as [a [<- Ha]].
+    apply Nat.ltb_lt. apply (L_spec a). apply Tx_In. now apply HinF.
+  - rewrite map_it_at_fst by (intros a Ha; apply Tx_In; now apply HinF).
+    apply adjacent_of_SS. rewrite Hsplit in HS. exact (proj1 (SS_app_inv _ _ _ HS)).
+  - destruct F as [|a0 F0]; [reflexivity|].
+    destruct (@exists_last _ (a0 :: F0)) as [P [e EP]]; [discriminate|]. rewrite EP in *. clear EP a0 F0.
+    rewrite map_app, rev_app_distr. cbn [map rev app].
+    assert (He : In e Tx) by (apply HinF; apply in_or_app; right; now left).
+    destruct (L_spec e (Tx_In e He)) as [Hlt Ee].
+    assert (Elast : it_at its (fst e) = snd e) by (rewrite Ee at 2; reflexivity).
+    rewrite Elast. apply Nat.eqb_eq.
+    rewrite combine_seq_pairs. fold pairup. fold L.
+    rewrite (filter_length_perm _ L Tx HP). rewrite Hsplit. rewrite <- app_assoc. cbn [app].
+    rewrite Hsplit, <- app_assoc in HS. cbn [app] in HS.
+    destruct (SS_app_inv _ _ _ HS) as (_ & HS2 & Hcross).
+    inversion HS2 as [|? ? _ HeR]; subst. rewrite Forall_forall in HeR.
+    pose proof Tx_NoDup as HndT. rewrite Hsplit, <- app_assoc in HndT. cbn [app] in HndT.
+    rewrite !filter_app. cbn [filter]. rewrite Nat.eqb_refl. cbn [negb andb].
+    rewrite filter_all, filter_none.
+    + rewrite !app_length, map_length. cbn. lia.
+    + intros r Hr.
+      assert (Hre : r <> e).
+      { intros ->. apply NoDup_remove_2 in HndT. apply HndT. apply in_or_app. now right. }
+      assert (Ir : In r Tx) by (rewrite Hsplit, <- app_assoc; apply in_or_app; right; right; exact Hr).
+      destruct (g (snd r) (snd e)) eqn:E; [|now rewrite andb_false_r].
+      exfalso. destruct g'_order as (Has & _ & _).
+      apply (Has e r (Tx_In e He) (Tx_In r Ir)); [intros Heq; apply Hre; now symmetry|apply HeR; exact Hr|exact E].
+    + intros x Hx.
+      assert (Hxe : x <> e).
+      { intros ->. apply NoDup_remove_2 in HndT. apply HndT. apply in_or_app. now left. }
+      assert (Ix : In x Tx) by (rewrite Hsplit, <- app_assoc; apply in_or_app; now left).
+      apply andb_true_iff. split.
+      * apply negb_true_iff, Nat.eqb_neq. intros Ef. apply Hxe.
+        destruct (L_spec x (Tx_In x Ix)) as [_ Ex]. rewrite Ex, Ee, Ef. reflexivity.
+      * apply (Hcross x e Hx). now left.
+Qed.
+
 End Case.
 
 (* ---------------------------------------------------------------- soundness of the boolean form *)
 Lemma check0_sound c : case_wf0 c = true -> in_domain0 c = true -> C13_check0 c (model0 c) = true.
 Proof.
-  destruct c as [md its | md its ps | md its perms | md bk keys h]; [| | |discriminate];
+  destruct c as [md its | md its ps | md its perms | md its lim reps | md bk keys h]; [| | | |discriminate];
     cbn [case_wf0 in_domain0 model0 C13_check0];
     destruct (parse_sort md) as [[m rv]|] eqn:Eps; auto.
   - (* ax *)
@@ -303,6 +420,18 @@ Proof.
     rewrite !andb_true_r. cbn [forallb]. rewrite list_nat_eqb_refl. cbn [andb].
     apply forallb_forall. intros o Ho. apply in_map_iff in Ho as [p [<- Hp]].
     rewrite (Hall p) by now right. apply list_nat_eqb_refl.
+  - (* top *)
+    intros Hwf Hdom. destruct (mode_pure m its) as [f|] eqn:Ef; [|discriminate].
+    pose proof (names_distinct its Hwf) as Hnd.
+    rewrite combine_seq_pairs.
+    change (msort (fun a b : nat * item => with_rev rv f (snd a) (snd b))
+                  (map (fun i : nat => (i, it_at its i)) (seq 0 (List.length its))))
+      with (Tx rv its f).
+    rewrite repeat_length, Nat.eqb_refl. cbn [andb].
+    destruct reps as [|reps]; [reflexivity|]. cbn [repeat].
+    rewrite (top_ok_model m rv its f Ef Hnd lim), andb_true_r.
+    cbn [forallb]. rewrite list_nat_eqb_refl. cbn [andb].
+    apply forallb_forall. intros o Ho. apply repeat_spec in Ho. subst o. apply list_nat_eqb_refl.
 Qed.
 
 (* collectors over histories reduce to the sort of their final items *)
